@@ -7,6 +7,11 @@ BASELINE_OFF = ("cd /repo && cargo nextest run --workspace --no-fail-fast --tool
                 "--test-threads 8 --offline || (cd /repo && cargo test --workspace --no-fail-fast --offline)")
 
 CHECKS = {
+ "C06": dict(
+   technique="bounded-exhaustive condition trees and call pairs + proptest call histories; oracle = reference three-valued evaluator over the spec, compared on all 256 assignments with the SQLite engine and with the evaluation of the predicate as parsed by the MySQL / Postgres grammar transcriptions",
+   text="Exploration: every condition tree of depth <= 1 (width <= 3), every depth-2 group of width <= 2 over the depth-1 trees, every pair of condition-adding calls over small trees, and random histories of up to 4 calls with trees up to depth 3, at six sites (SELECT WHERE / HAVING, UPDATE, DELETE, JOIN ON, CASE WHEN), in both parenthesis configurations. Each case is decided on all three-valued assignments of four columns (256 rows): SQLite by the engine (row sets and, for WHERE, the predicate's truth value incl. NULL vs FALSE), MySQL / Postgres by evaluating the parsed predicate.",
+   note="Atoms are ten fixed boolean expressions whose reference semantics are written in Rust; MySQL / Postgres verdicts rest on the harness's grammar transcriptions (parse.rs).",
+   ref="DESIGN.md 4/C06"),
  "C05": dict(
    technique="exhaustive depth-2 operator matrix + proptest random trees; oracle = grammar-faithful expression parsers per engine (tree equality) and differential evaluation on the SQLite engine against a fully parenthesised reference rendering",
    text="Exploration: the complete depth-2 matrix (outer operator kind x operand position x inner operator kind, per backend) and random expression trees up to depth 4 (quick) / 6 (thorough), in both rendering modes and in both parenthesis configurations (default and option-more-parentheses). The rendering is parsed with an independent transcription of each engine's expression grammar and must give back the tree that was built; SQLite renderings are also evaluated by the real engine over 125 rows against an explicit reference.",
